@@ -4,6 +4,14 @@
 // spells its own Go path (r.Mids[1].Leaf.M[a]); paths are produced by walking
 // the TYPE graph with reflection and are rendered through plush; a reflection
 // walk of the same steps over the same data is the reference.
+//
+// Three families: Root/Mid/Leaf ("r": the exhaustive walks), the recursive
+// Node ("n": every ORDER of steps, long paths, names that repeat at every
+// level) and Ext ("x": embedding, consecutive indexes, interface-typed
+// elements, named collection types). Beyond one render of one path: the same
+// expression evaluated repeatedly in one scope (sweeps), very many times in one
+// render (bulk), one parsed Template executed against several data sets
+// (re-execution), and variables that have the name of a member of the path.
 package c11
 
 import (
@@ -149,7 +157,9 @@ func (n Node) Greet(s string) string { return n.p + ".Greet(" + s + ")" }
 
 // Echo takes any value: an argument that arrives as something else than what the template wrote is seen in the leaf.
 func (n Node) Echo(x interface{}) string { return n.p + ".Echo(" + fmt.Sprint(x) + ")" }
-func (n Node) Kid(i int) Node            { return mkNode(n.p+".Kid("+strconv.Itoa(i)+")", min(n.d-1, 2), n.d-1, n.v) }
+func (n Node) Kid(i int) Node {
+	return mkNode(n.p+".Kid("+strconv.Itoa(i)+")", min(n.d-1, 2), n.d-1, n.v)
+}
 func (n *Node) PKid(i int) *Node {
 	if n == nil {
 		return nil
@@ -285,6 +295,8 @@ type Ext struct {
 	NS   Names
 	D    Dict
 	PA   *[2]string
+	AA   [2][2]string
+	IA   interface{} // holds a [2][2]string: an array that cannot be addressed
 	Xs   []Ext
 	p    string
 	v, d int
@@ -318,6 +330,8 @@ func mkExt(p string, v, d int) Ext {
 	x.NS = Names{p + ".NS[0]", p + ".NS[1]"}
 	x.D = Dict{"a": p + ".D[a]", "b": p + ".D[b]"}
 	x.PA = &[2]string{p + ".PA[0]", p + ".PA[1]"}
+	x.AA = [2][2]string{{p + ".AA[0][0]", p + ".AA[0][1]"}, {p + ".AA[1][0]", p + ".AA[1][1]"}}
+	x.IA = [2][2]string{{p + ".IA[0][0]", p + ".IA[0][1]"}, {p + ".IA[1][0]", p + ".IA[1][1]"}}
 	if v == 1 {
 		// irregular: short, empty and nil inner collections, nil elements
 		x.Grid = [][]string{{p + ".Grid[0][0]"}, {}, nil}
@@ -325,7 +339,8 @@ func mkExt(p string, v, d int) Ext {
 		x.MS = map[string][]Leaf{"a": {}, "b": mkLeaves(p+".MS[b]", 1, v)}
 		x.SM = []map[string]*Leaf{nil, {"a": nil, "b": pLeaf(p+".SM[1][b]", v)}}
 		x.JS["a"] = map[string]interface{}{"a": []interface{}{nil, pLeaf(p+".JS[a][a][1]", v)}, "b": nil}
-		x.JA[0] = nil
+		x.JA[0] = (*Leaf)(nil) // a typed nil in an interface
+		x.IA = &[2][2]string{{p + ".IA[0][0]", p + ".IA[0][1]"}, {p + ".IA[1][0]", p + ".IA[1][1]"}}
 		x.NS = Names{p + ".NS[0]"}
 		x.D = Dict{"b": p + ".D[b]"}
 		x.PA = nil
@@ -911,7 +926,7 @@ func mkRootNode(v int) *Node { n := mkNode("n", nodeDepth, nodeDepth, v); return
 
 // mkSpelledNode: a (smaller, fresh) Node graph whose leaves spell the root differently.
 func mkSpelledNode(spell string, v int) *Node { n := mkNode(spell, 4, nodeDepth, v); return &n }
-func mkRootExt(v int) *Ext   { x := mkExt("x", v, 1); return &x }
+func mkRootExt(v int) *Ext                    { x := mkExt("x", v, 1); return &x }
 
 var sharedNodes = [2]*Node{mkRootNode(0), mkRootNode(1)}
 var refNodes = [2]*Node{mkRootNode(0), mkRootNode(1)}
@@ -1212,12 +1227,7 @@ func (c Case) sig() string {
 var knownOpen = map[string]bool{
 	// (the six classes found when this check was first run were fixed in /repo)
 	//
-	// found when the Node family was added (2 root causes, one repair: /tmp/hunt-C11/chain-temp-names/fix.diff);
-	// delete these four lines when it is applied - the witnesses below then run as ordinary regression cases
-	"clean-failure/call-after-fields-then-member":            true,
-	"wrong-value/call-after-fields-root-named-like-a-field":  true,
-	"clean-failure/variable-named-like-member":               true,
-	"wrong-value/variable-named-like-member-as-any-argument": true,
+	// (the five classes found when the Node and Ext families were added - AF-41, AF-42, AF-43 - were fixed as well)
 }
 
 // strictMode: no class is tolerated (used only while the witnesses below are
@@ -1269,6 +1279,8 @@ var witnesses = []struct {
 		Case{Fam: "node", Root: "n", Steps: []Step{st("Kids"), at(lit(0)), st("Kids"), at(lit(1)), st("M"), at(Arg{S: "b", Var: true, N: "Kids"}), st("Name")}}},
 	{"wrong-value/variable-named-like-member-as-any-argument", "the same with the variable as an argument of type interface{}: the method receives the indexed element instead of the variable",
 		Case{Fam: "node", Root: "n", Steps: []Step{st("Kids"), at(lit(0)), st("Kids"), at(lit(1)), call("Echo", Arg{Int: true, I: 1, Var: true, N: "Kids"})}}},
+	{"clean-failure/index-through-pointer-to-array", "p[i] with p a POINTER to an array that is not a struct field of pointer type (held in an interface, a map or slice element, a call result, a context variable) fails with 'could not index *[2]...': field selection and for loops dereference pointers, indexing does not",
+		Case{Fam: "ext", Variant: 1, Root: "x", Steps: []Step{st("IA"), at(lit(0)), at(lit(1))}}},
 }
 
 func replayWitnesses(r *vk.Run) {
@@ -1634,6 +1646,13 @@ func checkOne(r *vk.Run, c Case) (out *vk.Fail) {
 		return fail(cls, "%s: %s", where, res)
 	}
 
+	if res.Err != nil && strings.Contains(res.Err.Error(), "could not index *[") {
+		// a clean failure, and the message says what was indexed: a pointer to an array
+		if k := "clean-failure/index-through-pointer-to-array"; isOpen(r, k) {
+			r.Exclude(k)
+			return nil
+		}
+	}
 	if c.Sweep != nil {
 		return judgeSweep(r, c, start, res, where, fail)
 	}
@@ -2162,7 +2181,7 @@ var (
 	anyAlts = map[string][]reflect.Type{
 		"":     {tMid, tLeaf, tString, reflect.TypeOf([]string{})},
 		"node": {tNode},
-		"ext":  {tLeaf, tString, reflect.TypeOf(P{}), reflect.TypeOf(Q{}), reflect.TypeOf(map[string]interface{}{}), reflect.TypeOf([]interface{}{})},
+		"ext":  {tLeaf, tString, reflect.TypeOf(P{}), reflect.TypeOf(Q{}), reflect.TypeOf(map[string]interface{}{}), reflect.TypeOf([]interface{}{}), reflect.TypeOf([2][2]string{})},
 	}
 )
 
@@ -2218,7 +2237,7 @@ func cands0(t reflect.Type, fam string) []cand {
 	case reflect.Struct:
 		for _, f := range reflect.VisibleFields(t) { // the struct's own fields and the promoted ones
 			if f.PkgPath != "" {
-				if f.Name == "hidden" {
+				if f.Name == "hidden" || fam == "ext" { // Ext: every unexported member, own, promoted and embedded
 					out = append(out, cand{Step{F: f.Name}, nil, "unexported-member"})
 				}
 				continue
@@ -2642,13 +2661,15 @@ func spines(emit func(steps []Step)) {
 	}
 }
 
-const rule = "data: Root/Mid/Leaf/Inner graphs (value and pointer fields, nil pointers, slices, arrays, map[string], map[int], slices/maps of pointers with nil elements, interface-typed fields, value- and pointer-receiver methods with 0-2 arguments returning strings, structs, pointers, nil, slices and maps; the member names Name, Arr, M, IM, Any, Hello repeat at every depth) in 2 recipes x root passed as Root or *Root; every leaf string spells its own Go path with [A-Za-z0-9_.,()\\[\\]] only (keys and arguments unquoted). Paths: walks over the TYPE graph by reflection (field, index/key, method-call steps; literal and context-variable indexes, keys and arguments): (E1) every walk of <= L steps (quick: 3, plus every 5th walk of 4 steps; thorough: 4) that ends at a string or at a deliberately broken step (missing key, index = len and beyond, negative index, wrong key type, unknown / unexported member, field called as method, indexing a struct; nil pointers and short slices come from the data); (E2) two and three INDEXED levels r.C1[i].C2[j].C3[k] over every combination of collection-valued members; (R) random walks of up to 7+ steps with random root and variable names (names that collide with member names included). Each path is placed in <%= %> (once, and twice in a row), behind `let v = prefix` at every position, and as a `for (kk, v) in prefix` iterable at every index step (the rest continues from the loop variable; every element is checked), also let+for combined; (E3/R) SWEEPS: the whole body is put in one loop body and evaluated once per value of a variable q (loop key, loop value, or `let q = value` re-assigned in the loop scope) that stands for one or several inner indexes / keys / method arguments of the path, so the same expression node is evaluated 2-4 times in one scope with different inner indexes; every evaluation is compared with the reference walk for its value. Reference: a reflection walk of the same steps over a separate copy of the same data. Verdict per path: completable => output == the leaf's spelled path; not completable => error or empty output; a panic or any other text => violation; a clean failure of a completable path is a violation unless its shape is a listed open class. Non-trivial = broken path, or completable path of >= 3 steps containing an index, a method call or a cut; distinct by (recipe, root form, names, steps, cuts, twice)."
+const rule = "data: Root/Mid/Leaf/Inner graphs (value and pointer fields, nil pointers, slices, arrays, map[string], map[int], slices/maps of pointers with nil elements, interface-typed fields, value- and pointer-receiver methods with 0-2 arguments returning strings, structs, pointers, nil, slices and maps; the member names Name, Arr, M, IM, Any, Hello repeat at every depth) in 2 recipes x root passed as Root or *Root; every leaf string spells its own Go path with [A-Za-z0-9_.,()\\[\\]] only (keys and arguments unquoted). Paths: walks over the TYPE graph by reflection (field, index/key, method-call steps; literal and context-variable indexes, keys and arguments): (E1) every walk of <= L steps (quick: 3, plus every 5th walk of 4 steps; thorough: 4) that ends at a string or at a deliberately broken step (missing key, index = len and beyond, negative index, wrong key type, unknown / unexported member, field called as method, indexing a struct; nil pointers and short slices come from the data); (E2) two and three INDEXED levels r.C1[i].C2[j].C3[k] over every combination of collection-valued members; (R) random walks of up to 7+ steps with random root and variable names (names that collide with member names included). Each path is placed in <%= %> (once, and twice in a row), behind `let v = prefix` at every position, and as a `for (kk, v) in prefix` iterable at every index step (the rest continues from the loop variable; every element is checked), also let+for combined; (E3/R) SWEEPS: the whole body is put in one loop body and evaluated once per value of a variable q (loop key, loop value, or `let q = value` re-assigned in the loop scope) that stands for one or several inner indexes / keys / method arguments of the path, so the same expression node is evaluated 2-4 times in one scope with different inner indexes; every evaluation is compared with the reference walk for its value. (N) NODE family: a recursive Node whose every member leads to a Node (fields Kids []Node, Next *Node, M map[string]*Node, Any interface{}; methods Kid(i) Node, PKid(i) *Node on the pointer, GetKids() []Node, Hello, Greet(s), Echo(any)); a node built by a method spells the call; 2 recipes (recipe 1: 3/1 kids, nil Next on every third level, nil map entries): every sequence of 1-3 hops x 4 tails (4 hops: sampled in the quick tier), literal/variable pattern, root and let names that are member names; long paths of 6 and 9 hops; every variable argument RENAMED to every member / method name that occurs earlier in the path (a template variable called Kids used below .Kids[0]); sweeps; BULK: one render that evaluates a path 1100 times. (X) EXT family: embedded structs (by value, by pointer - nil in recipe 1 -, of an unexported type) with promoted and shadowed fields and promoted methods, consecutive indexes (slice of slices, array of arrays, map of maps, map of slices, slice of maps; two and three in a row; at the top, below an index, below a call), interface-typed ELEMENTS (JSON-like nests, a slice of structs of two types that have the same member names in a different order, typed and untyped nil elements, a pointer to an array in an interface), a map keyed by interface{}, named slice / map types with methods, pointer to array: every walk of <= 3 steps incl. broken ones and every unexported member. (RE) RE-EXECUTION: one Template parsed once and executed 3-4 times against data of the other recipe / root form whose leaves spell the root differently; every execution is judged. Random walks for the Node and Ext families as for Root, with renamed variables. Reference: a reflection walk of the same steps over a separate copy of the same data (promoted members: the leaf spells the short path). Verdict per path: completable => output == the leaf's spelled path; not completable => error or empty output; a panic or any other text => violation; a clean failure of a completable path is a violation unless its shape is a listed open class. Non-trivial = broken path, or completable path of >= 3 steps containing an index, a method call or a cut; distinct by (family, recipe, root form, names, steps, cuts, twice, sweep, re-execution list, bulk)."
 
 func setup(t *testing.T) *vk.Run {
 	r := vk.Start(t, "C11", rule,
 		"reflect's own field/index/method navigation is the trusted reference",
 		"a pointer-receiver method called on a value Go cannot take the address of (map element, call result, interface content) may work or fail cleanly",
-		"paths that end at something other than a string (struct, nil) are generated only as broken paths and otherwise not judged")
+		"paths that end at something other than a string (struct, nil) are generated only as broken paths and otherwise not judged",
+		"a method promoted through an embedded pointer that is nil (Go panics or hands the method a nil receiver) is not judged",
+		"the Node graph handed to plush is shared by the renders (C11's templates cannot write to it); it is compared with a fresh one at the end of the run")
 	r.Replayer("path", func(raw json.RawMessage) *vk.Fail {
 		var c Case
 		if f := vk.Decode(raw, &c); f != nil {
@@ -2833,6 +2854,9 @@ func TestProp(t *testing.T) {
 		{st("JA"), at(lit(2)), at(lit(1)), st("In"), st("Name")},
 		{st("JA"), at(lit(2)), at(lit(0))},
 		{st("JA"), at(lit(2)), at(lit(2))},
+		{st("AA"), at(lit(1)), at(lit(0))},
+		{st("IA"), at(lit(0)), at(lit(1))},
+		{st("AA"), at(lit(1)), at(lit(2))},
 		{st("Grid"), at(lit(1)), at(lit(2))},
 		{st("MM"), at(key("z")), at(key("a"))},
 	} {
@@ -2916,7 +2940,7 @@ func TestProp(t *testing.T) {
 	r.Parallel(int64(len(fcases)), 0, func(i int64) { r.Check(checkCase(r, fcases[i])) })
 	r.Subspace(fmt.Sprintf("Node family: every sequence of 1-3 hops (.Kids[i] .Next .M[k] .Kid(i) .PKid(i) .GetKids()[i] .Any; %d+%d+%d sequences x 4 tails .Name .Hello() .Greet(s) .Echo(any)) and of 4 hops (%d; the quick tier takes every 12th), literal/variable pattern varying with the path, root and let names that are member names; x usages (emit once/twice, a let, a for at every index step) x 2 recipes", nhop[1]/4, nhop[2]/4, nhop[3]/4, nhop[4]), nHopCases, r.Thorough())
 	r.Subspace("Node family: long paths: 6 and 9 hops of one kind or of alternating kinds (13 kinds) x literal/variable x usages x 2 recipes", nSpineCases, true)
-	r.Subspace("Node and Ext families: every walk of <= 3 steps over the type graph: broken walks as emit and as for iterable; completable Ext walks (embedded and promoted members, consecutive indexes, interface-typed elements, named collection types, pointer to array) x usages, and once more below x.Xs[i] / x.GetX(); 18 paths with two and three consecutive indexes (slice of slices, map of maps / slices, slice of maps, JSON-like nests) at the top, below x.Xs[i] and below x.GetX(), literal and variable, x usages; x 2 recipes", nEnumCases, true)
+	r.Subspace("Node and Ext families: every walk of <= 3 steps over the type graph: broken walks as emit and as for iterable; completable Ext walks (embedded and promoted members, consecutive indexes, interface-typed elements, named collection types, pointer to array) x usages, and once more below x.Xs[i] / x.GetX(); 21 paths with two and three consecutive indexes (slice of slices, map of maps / slices, slice of maps, JSON-like nests) at the top, below x.Xs[i] and below x.GetX(), literal and variable, x usages; x 2 recipes", nEnumCases, true)
 	r.Subspace("Node family: for every path of <= 3 hops, every variable argument and every member or method name that occurs earlier in the path: the variable is given that name", nRenCases, true)
 	r.Subspace("Node and Ext families: sweeps (as above) over the hop paths (quick: <= 2 hops) and the all-variable Ext walks of <= 3 steps", nSweepCases, r.Thorough())
 	r.Subspace("ONE parsed template executed 3-4 times against different data (recipe 0/1, root by value / by pointer, leaves that spell the root differently, the first again): hop paths of <= 3 hops (quick: every 2nd), Ext walks of <= 3 steps, completable Root walks of <= 3 steps (quick: every 3rd)", nReCases, r.Thorough())
@@ -2929,13 +2953,20 @@ func TestProp(t *testing.T) {
 	r.Rapid("walks", r.Pick(6000, 60000), func(t *rapid.T) *vk.Fail {
 		return checkCase(r, genCase(t, ""))
 	})
+	r.Rapid("node-walks", r.Pick(2500, 40000), func(t *rapid.T) *vk.Fail {
+		return checkCase(r, genCase(t, "node"))
+	})
+	r.Rapid("ext-walks", r.Pick(1500, 25000), func(t *rapid.T) *vk.Fail {
+		return checkCase(r, genCase(t, "ext"))
+	})
 
 	dumpShapes(r)
 
 	// harness sanity: the reference copies of the data were never written
 	for v := range refRoots {
-		if !reflect.DeepEqual(refRoots[v], mkRoot(v)) {
-			fmt.Printf("HARNESS-ERROR property=C11: the reference data of recipe %d changed during the run\n", v)
+		// (the Node graph handed to plush is shared by the renders: it must be as it was, too)
+		if !reflect.DeepEqual(refRoots[v], mkRoot(v)) || !reflect.DeepEqual(refNodes[v], mkRootNode(v)) || !reflect.DeepEqual(sharedNodes[v], mkRootNode(v)) || !reflect.DeepEqual(refExts[v], mkRootExt(v)) {
+			fmt.Printf("HARNESS-ERROR property=C11: the reference data of recipe %d (or the shared Node graph) changed during the run\n", v)
 			r.Finish()
 			os.Exit(2)
 		}
@@ -2951,6 +2982,11 @@ func genCase(t *rapid.T, fam string) Case {
 		Variant: rapid.IntRange(0, 1).Draw(t, "variant"),
 		Ptr:     rapid.Bool().Draw(t, "ptr"),
 		Root:    rapid.SampledFrom(rootNames).Draw(t, "root"),
+	}
+	varNames := varNames
+	if fam == "node" {
+		c.Root = rapid.SampledFrom([]string{"n", "x", "Next", "Kids", "Kid", "M", "Any"}).Draw(t, "nodeRoot")
+		varNames = []string{"x", "y", "Kids", "Next", "M", "Kid", "n", "e"}
 	}
 	n := rapid.SampledFrom([]int{2, 3, 4, 4, 5, 5, 6, 6, 7, 7}).Draw(t, "len")
 	ty := famRoot(fam)
@@ -3073,6 +3109,37 @@ func genCase(t *rapid.T, fam string) Case {
 				c.Cuts[i].V += "2"
 			}
 		}
+	} else if rapid.IntRange(0, 3).Draw(t, "rename") == 0 {
+		// one variable argument gets the name of a member or method that occurs earlier in the path
+		taken := map[string]bool{c.Root: true, "kk": true, "bulk": true, "bi": true, "bv": true}
+		for _, k := range c.Cuts {
+			taken[k.V] = true
+		}
+		type pn struct {
+			s, a int
+			n    string
+		}
+		var opts []pn
+		for si, st := range c.Steps {
+			for ai, a := range st.A {
+				if !a.Var {
+					continue
+				}
+				for _, e := range c.Steps[:si] {
+					if n := e.F + e.M; n != "" && !taken[n] {
+						opts = append(opts, pn{si, ai, n})
+					}
+				}
+			}
+		}
+		if len(opts) > 0 {
+			o := opts[rapid.IntRange(0, len(opts)-1).Draw(t, "renameWhich")]
+			c.Steps[o.s].A = append([]Arg(nil), c.Steps[o.s].A...)
+			c.Steps[o.s].A[o.a].N = o.n
+		}
+	}
+	if why := c.wellFormed(); why != "" {
+		panic("harness: generated case is not well-formed: " + why + ": " + c.key())
 	}
 	return c
 }
